@@ -127,12 +127,12 @@ def generate(tier, seed):
         size = 40 if tier == "quick" else 60
         for lo, hi in chunks(0, 5 ** length, size):
             cases.append({"kind": "enum", "len": length, "lo": lo, "hi": hi, "P": P})
-    for k in range(12 if tier == "quick" else 1500):
+    for k in range(36 if tier == "quick" else 1500):
         cases.append({"kind": "multi", "k": k, "n": 150})
     nrand = 4000 if tier == "quick" else 1000000
     for k, (lo, hi) in enumerate(chunks(0, nrand, 250)):
         cases.append({"kind": "rand", "k": k, "n": hi - lo})
-    for k in range(6 if tier == "quick" else 60):
+    for k in range(16 if tier == "quick" else 60):
         cases.append({"kind": "lint", "k": k})
     return cases
 
